@@ -1,6 +1,7 @@
 package checks
 
 import (
+	"bytes"
 	"fmt"
 	"math"
 	"sort"
@@ -69,7 +70,7 @@ func c15PointKey(p data.Point) string {
 func runC15(tier string, _ []string) int {
 	c := vlib.NewCtx("C15", tier, "exploration")
 	vlib.SetPortBlock(15)
-	c.SetRule("per case: a generated tree (depth <=5, fan-out <=6, <=60 nodes, mirrors inside the tree, deleted children, tombstoned points, keys ''/'0'/index/map keys, nodeID cross-references inside and outside the tree) whose point texts come from a pool of YAML-significant / Unicode / control / multi-line strings and whose values cover integers, fractions, exponents and +-Inf, built on a live instance; ExportNodes then ImportNodes (same parent, other parent, root of a second instance; with and without preserveIDs); the imported subtree is read back and compared with the source by matching nodes through a unique marker point: shape, types, point multisets (type, key ''=='0', value, text, tombstone), edge points (tombstone 0 == absent), id map bijective and applied to nodeID texts, ' (import)' on the top description only, deleted nodes absent. distinct = (text classes present, value classes present, target kind, preserveIDs)")
+	c.SetRule("per case: a generated tree (depth <=5, fan-out <=6, <=60 nodes, mirrors inside the tree, deleted children, tombstoned points, keys ''/'0'/index/map keys, nodeID cross-references inside and outside the tree) whose point texts come from a pool of YAML-significant / Unicode / control / multi-line strings and whose values cover integers, fractions, exponents and +-Inf, built on a live instance; ExportNodes (the result is held while three more exports are made and must not change) then ImportNodes (same parent, other parent, root of a second instance; with and without preserveIDs); the imported subtree is read back and compared with the source by matching nodes through a unique marker point: shape, types, point multisets (type, key ''=='0', value, text, tombstone), edge points (tombstone 0 == absent), id map bijective and applied to nodeID texts, ' (import)' on the top description only, deleted nodes absent; in every second case without id preservation the same bytes are imported a second time next to the first copy and compared again. distinct = (text classes present, value classes present, target kind, preserveIDs)")
 	c.Assume("times, origins and data are not compared (import re-stamps; the property lists type, key, value, text, tombstone)")
 	nTrees := c.N(30, 500)
 	vlib.Parallel(nTrees, 5, func(i int) {
@@ -286,6 +287,16 @@ func runC15(tier string, _ []string) int {
 			c.Violate("export:failed:"+classSig(), "ExportNodes failed: "+err.Error(), wit)
 			return
 		}
+		// what ExportNodes returned belongs to the caller: it must not change when further exports are
+		// made (of sub-trees of this tree, also from the other workers of this run) before it is used
+		held := append([]byte{}, y...)
+		for q := 0; q < 3 && q < len(order); q++ {
+			_, _ = client.ExportNodes(nc, order[r.Intn(len(order))])
+		}
+		if !bytes.Equal(held, y) {
+			c.Violate("export:result-changed-after-later-export", "the bytes returned by ExportNodes changed while the caller was holding them and made other exports", wit)
+			return
+		}
 		// ---- import
 		tnc := nc
 		var parent string
@@ -357,207 +368,238 @@ func runC15(tier string, _ []string) int {
 			c.Violate("import:no-top-node", "no new node under the target parent after import", wit)
 			return
 		}
-		// ---- compare by marker
-		type got struct {
-			ne   data.NodeEdge
-			kids []data.NodeEdge
-		}
-		idMap := map[string]string{} // old -> new
-		newSeen := map[string]string{}
-		refMap := map[string]string{}
-		var problems []string
-		bad := func(sig, f string, a ...any) { problems = append(problems, sig+"|"+fmt.Sprintf(f, a...)) }
-		visited := 0
-		var cmp func(oldID, oldParent, newID, newParent string, isTop bool)
-		cmp = func(oldID, oldParent, newID, newParent string, isTop bool) {
+		verifyCopy := func(newTop, parent string) bool {
+			// ---- compare by marker
+			type got struct {
+				ne   data.NodeEdge
+				kids []data.NodeEdge
+			}
+			idMap := map[string]string{} // old -> new
+			newSeen := map[string]string{}
+			refMap := map[string]string{}
+			var problems []string
+			bad := func(sig, f string, a ...any) { problems = append(problems, sig+"|"+fmt.Sprintf(f, a...)) }
+			visited := 0
+			var cmp func(oldID, oldParent, newID, newParent string, isTop bool)
+			cmp = func(oldID, oldParent, newID, newParent string, isTop bool) {
+				if len(problems) > 0 {
+					return
+				}
+				visited++
+				o := nodes[oldID]
+				ns, err := client.GetNodes(tnc, newParent, newID, "", true)
+				if err != nil || len(ns) != 1 {
+					bad("import:node-unreadable", "imported node %s under %s: %v (%d)", newID, newParent, err, len(ns))
+					return
+				}
+				n := ns[0]
+				if prev, ok := idMap[oldID]; ok && prev != newID {
+					bad("import:id-map-inconsistent", "node %s appears as %s and as %s", oldID, prev, newID)
+					return
+				}
+				if prevOld, ok := newSeen[newID]; ok && prevOld != oldID {
+					bad("import:id-map-not-injective", "new id %s stands for %s and %s", newID, prevOld, oldID)
+					return
+				}
+				idMap[oldID], newSeen[newID] = newID, oldID
+				if preserve && newID != oldID {
+					bad("import:id-not-preserved", "%s became %s with preserveIDs", oldID, newID)
+					return
+				}
+				if !preserve && newID == oldID {
+					bad("import:id-not-replaced", "%s kept its id without preserveIDs", oldID)
+					return
+				}
+				if n.Type != o.Type {
+					bad("import:node-type-changed", "%s: type %q became %q", oldID, o.Type, n.Type)
+					return
+				}
+				// points
+				want := map[string]data.Point{}
+				for _, p := range o.Points {
+					want[c15Ident(p)] = p
+				}
+				gotP := map[string]data.Point{}
+				for _, p := range n.Points {
+					gotP[c15Ident(p)] = p
+				}
+				for id, wp := range want {
+					gp, ok := gotP[id]
+					if !ok {
+						bad("import:point-lost", "%s: point %s missing after import", oldID, c15PointKey(wp))
+						return
+					}
+					wText := wp.Text
+					if wp.Type == data.PointTypeDescription && isTop {
+						wText += " (import)"
+					}
+					if wp.Type == data.PointTypeNodeID && wp.Text != "" {
+						if preserve {
+							if gp.Text != wp.Text {
+								bad("import:reference-changed", "%s: nodeID reference %q became %q with preserveIDs", oldID, wp.Text, gp.Text)
+								return
+							}
+						} else {
+							if prev, ok := refMap[wp.Text]; ok && prev != gp.Text {
+								bad("import:reference-map-inconsistent", "reference to %s became %s and %s", wp.Text, prev, gp.Text)
+								return
+							}
+							refMap[wp.Text] = gp.Text
+						}
+						wText = gp.Text
+					}
+					if gp.Text != wText {
+						sig := "import:text-changed"
+						if wp.Type == data.PointTypeDescription && !isTop && gp.Text == wp.Text+" (import)" {
+							sig = "import:marker-on-non-top-description"
+						}
+						bad(sig, "%s: point %q/%q text %q became %q", oldID, wp.Type, wp.Key, wText, gp.Text)
+						return
+					}
+					if !(gp.Value == wp.Value) {
+						bad("import:value-changed", "%s: point %q/%q value %v became %v", oldID, wp.Type, wp.Key, wp.Value, gp.Value)
+						return
+					}
+					if gp.Tombstone != wp.Tombstone {
+						bad("import:tombstone-changed", "%s: point %q/%q tombstone %d became %d", oldID, wp.Type, wp.Key, wp.Tombstone, gp.Tombstone)
+						return
+					}
+				}
+				for id, gp := range gotP {
+					if _, ok := want[id]; !ok {
+						bad("import:phantom-point", "%s: point %s appeared", oldID, c15PointKey(gp))
+						return
+					}
+				}
+				// edge points (tombstone 0 == absent)
+				if !isTop {
+					se, err := client.GetNodes(nc, oldParent, oldID, "", true)
+					if err == nil && len(se) == 1 {
+						we, ge := map[string]data.Point{}, map[string]data.Point{}
+						for _, p := range se[0].EdgePoints {
+							if !(p.Type == data.PointTypeTombstone && p.Value == 0) {
+								we[c15Ident(p)] = p
+							}
+						}
+						for _, p := range n.EdgePoints {
+							if !(p.Type == data.PointTypeTombstone && p.Value == 0) {
+								ge[c15Ident(p)] = p
+							}
+						}
+						for id, wp := range we {
+							gp, ok := ge[id]
+							if !ok || gp.Text != wp.Text || !(gp.Value == wp.Value) || gp.Tombstone != wp.Tombstone {
+								bad("import:edge-point-changed", "%s: edge point %s became %s (present=%v)", oldID, c15PointKey(wp), c15PointKey(gp), ok)
+								return
+							}
+						}
+						for id, gp := range ge {
+							if _, ok := we[id]; !ok {
+								bad("import:phantom-edge-point", "%s: edge point %s appeared", oldID, c15PointKey(gp))
+								return
+							}
+						}
+					}
+				}
+				// children: live children of the source vs all children of the import
+				var wantKids []string
+				for _, id := range order {
+					for _, p := range nodes[id].Parents {
+						if p == oldID && !(deleted[id] && nodes[id].Parents[0] == p) {
+							wantKids = append(wantKids, id)
+						}
+					}
+				}
+				kids, err := client.GetNodes(tnc, newID, "all", "", true)
+				if err != nil {
+					bad("import:node-unreadable", "children of %s: %v", newID, err)
+					return
+				}
+				byMarker := map[string]data.NodeEdge{}
+				for _, k := range kids {
+					m, _ := k.Points.Text("vmarker", "")
+					if _, dup := byMarker[m]; dup {
+						bad("import:child-duplicated", "%s: two imported children carry marker %q", oldID, m)
+						return
+					}
+					byMarker[m] = k
+				}
+				if preserve && targetKind == "other-instance-preserve" || !preserve {
+					if len(kids) != len(wantKids) {
+						var ms []string
+						for m := range byMarker {
+							ms = append(ms, m)
+						}
+						sort.Strings(ms)
+						for _, k := range kids {
+							if deleted[newSeenOld(newSeen, k.ID, byMarker, nodes)] {
+								bad("import:deleted-node-exported", "%s: a deleted child was exported/imported (%v)", oldID, ms)
+								return
+							}
+						}
+						bad("import:shape-changed", "%s: %d live children, import has %d (%v)", oldID, len(wantKids), len(kids), ms)
+						return
+					}
+				}
+				for _, kid := range wantKids {
+					k, ok := byMarker[nodes[kid].Marker]
+					if !ok {
+						bad("import:child-lost", "%s: child %s missing after import", oldID, kid)
+						return
+					}
+					cmp(kid, oldID, k.ID, newID, false)
+				}
+			}
+			cmp(top.ID, grp, newTop, parent, true)
+			c.Count("nodes_compared", int64(visited))
 			if len(problems) > 0 {
-				return
-			}
-			visited++
-			o := nodes[oldID]
-			ns, err := client.GetNodes(tnc, newParent, newID, "", true)
-			if err != nil || len(ns) != 1 {
-				bad("import:node-unreadable", "imported node %s under %s: %v (%d)", newID, newParent, err, len(ns))
-				return
-			}
-			n := ns[0]
-			if prev, ok := idMap[oldID]; ok && prev != newID {
-				bad("import:id-map-inconsistent", "node %s appears as %s and as %s", oldID, prev, newID)
-				return
-			}
-			if prevOld, ok := newSeen[newID]; ok && prevOld != oldID {
-				bad("import:id-map-not-injective", "new id %s stands for %s and %s", newID, prevOld, oldID)
-				return
-			}
-			idMap[oldID], newSeen[newID] = newID, oldID
-			if preserve && newID != oldID {
-				bad("import:id-not-preserved", "%s became %s with preserveIDs", oldID, newID)
-				return
-			}
-			if !preserve && newID == oldID {
-				bad("import:id-not-replaced", "%s kept its id without preserveIDs", oldID)
-				return
-			}
-			if n.Type != o.Type {
-				bad("import:node-type-changed", "%s: type %q became %q", oldID, o.Type, n.Type)
-				return
-			}
-			// points
-			want := map[string]data.Point{}
-			for _, p := range o.Points {
-				want[c15Ident(p)] = p
-			}
-			gotP := map[string]data.Point{}
-			for _, p := range n.Points {
-				gotP[c15Ident(p)] = p
-			}
-			for id, wp := range want {
-				gp, ok := gotP[id]
-				if !ok {
-					bad("import:point-lost", "%s: point %s missing after import", oldID, c15PointKey(wp))
-					return
+				parts := strings.SplitN(problems[0], "|", 2)
+				sig := parts[0]
+				if sig == "import:text-changed" || sig == "import:value-changed" || sig == "import:point-lost" {
+					sig += ":" + classSig()
 				}
-				wText := wp.Text
-				if wp.Type == data.PointTypeDescription && isTop {
-					wText += " (import)"
-				}
-				if wp.Type == data.PointTypeNodeID && wp.Text != "" {
-					if preserve {
-						if gp.Text != wp.Text {
-							bad("import:reference-changed", "%s: nodeID reference %q became %q with preserveIDs", oldID, wp.Text, gp.Text)
-							return
-						}
-					} else {
-						if prev, ok := refMap[wp.Text]; ok && prev != gp.Text {
-							bad("import:reference-map-inconsistent", "reference to %s became %s and %s", wp.Text, prev, gp.Text)
-							return
-						}
-						refMap[wp.Text] = gp.Text
-					}
-					wText = gp.Text
-				}
-				if gp.Text != wText {
-					sig := "import:text-changed"
-					if wp.Type == data.PointTypeDescription && !isTop && gp.Text == wp.Text+" (import)" {
-						sig = "import:marker-on-non-top-description"
-					}
-					bad(sig, "%s: point %q/%q text %q became %q", oldID, wp.Type, wp.Key, wText, gp.Text)
-					return
-				}
-				if !(gp.Value == wp.Value) {
-					bad("import:value-changed", "%s: point %q/%q value %v became %v", oldID, wp.Type, wp.Key, wp.Value, gp.Value)
-					return
-				}
-				if gp.Tombstone != wp.Tombstone {
-					bad("import:tombstone-changed", "%s: point %q/%q tombstone %d became %d", oldID, wp.Type, wp.Key, wp.Tombstone, gp.Tombstone)
-					return
-				}
+				wit["mirrors"] = mirrors
+				c.Violate(sig, parts[1], wit)
+				return false
 			}
-			for id, gp := range gotP {
-				if _, ok := want[id]; !ok {
-					bad("import:phantom-point", "%s: point %s appeared", oldID, c15PointKey(gp))
-					return
-				}
-			}
-			// edge points (tombstone 0 == absent)
-			if !isTop {
-				se, err := client.GetNodes(nc, oldParent, oldID, "", true)
-				if err == nil && len(se) == 1 {
-					we, ge := map[string]data.Point{}, map[string]data.Point{}
-					for _, p := range se[0].EdgePoints {
-						if !(p.Type == data.PointTypeTombstone && p.Value == 0) {
-							we[c15Ident(p)] = p
-						}
-					}
-					for _, p := range n.EdgePoints {
-						if !(p.Type == data.PointTypeTombstone && p.Value == 0) {
-							ge[c15Ident(p)] = p
-						}
-					}
-					for id, wp := range we {
-						gp, ok := ge[id]
-						if !ok || gp.Text != wp.Text || !(gp.Value == wp.Value) || gp.Tombstone != wp.Tombstone {
-							bad("import:edge-point-changed", "%s: edge point %s became %s (present=%v)", oldID, c15PointKey(wp), c15PointKey(gp), ok)
-							return
-						}
-					}
-					for id, gp := range ge {
-						if _, ok := we[id]; !ok {
-							bad("import:phantom-edge-point", "%s: edge point %s appeared", oldID, c15PointKey(gp))
-							return
-						}
+			if !preserve {
+				// references inside the tree must follow the id map; outside ones must be fresh and distinct
+				for old, nw := range refMap {
+					if mapped, ok := idMap[old]; ok && mapped != nw {
+						c.Violate("import:reference-not-following-id-map", fmt.Sprintf("reference to %s became %s but the node itself became %s", old, nw, mapped), wit)
+						return false
 					}
 				}
 			}
-			// children: live children of the source vs all children of the import
-			var wantKids []string
-			for _, id := range order {
-				for _, p := range nodes[id].Parents {
-					if p == oldID && !(deleted[id] && nodes[id].Parents[0] == p) {
-						wantKids = append(wantKids, id)
-					}
-				}
-			}
-			kids, err := client.GetNodes(tnc, newID, "all", "", true)
-			if err != nil {
-				bad("import:node-unreadable", "children of %s: %v", newID, err)
-				return
-			}
-			byMarker := map[string]data.NodeEdge{}
-			for _, k := range kids {
-				m, _ := k.Points.Text("vmarker", "")
-				if _, dup := byMarker[m]; dup {
-					bad("import:child-duplicated", "%s: two imported children carry marker %q", oldID, m)
-					return
-				}
-				byMarker[m] = k
-			}
-			if preserve && targetKind == "other-instance-preserve" || !preserve {
-				if len(kids) != len(wantKids) {
-					var ms []string
-					for m := range byMarker {
-						ms = append(ms, m)
-					}
-					sort.Strings(ms)
-					for _, k := range kids {
-						if deleted[newSeenOld(newSeen, k.ID, byMarker, nodes)] {
-							bad("import:deleted-node-exported", "%s: a deleted child was exported/imported (%v)", oldID, ms)
-							return
-						}
-					}
-					bad("import:shape-changed", "%s: %d live children, import has %d (%v)", oldID, len(wantKids), len(kids), ms)
-					return
-				}
-			}
-			for _, kid := range wantKids {
-				k, ok := byMarker[nodes[kid].Marker]
-				if !ok {
-					bad("import:child-lost", "%s: child %s missing after import", oldID, kid)
-					return
-				}
-				cmp(kid, oldID, k.ID, newID, false)
-			}
+			return true
 		}
-		cmp(top.ID, grp, newTop, parent, true)
-		c.Count("nodes_compared", int64(visited))
-		if len(problems) > 0 {
-			parts := strings.SplitN(problems[0], "|", 2)
-			sig := parts[0]
-			if sig == "import:text-changed" || sig == "import:value-changed" || sig == "import:point-lost" {
-				sig += ":" + classSig()
-			}
-			wit["mirrors"] = mirrors
-			c.Violate(sig, parts[1], wit)
+		if !verifyCopy(newTop, parent) {
 			return
 		}
-		if !preserve {
-			// references inside the tree must follow the id map; outside ones must be fresh and distinct
-			for old, nw := range refMap {
-				if mapped, ok := idMap[old]; ok && mapped != nw {
-					c.Violate("import:reference-not-following-id-map", fmt.Sprintf("reference to %s became %s but the node itself became %s", old, nw, mapped), wit)
-					return
-				}
+		// ---- the same export, kept while other exports happen, imported a second time next to the first
+		if !preserve && i%2 == 0 {
+			for _, other := range order[:min(len(order), 3)] {
+				_, _ = client.ExportNodes(nc, other)
 			}
+			parent2 := fmt.Sprintf("grpC%d", i)
+			if e, err := vlib.SendAck(tnc, vlib.EdgeSubj(parent2, parent), data.Points{{Type: data.PointTypeNodeType, Text: "group"}, {Type: data.PointTypeTombstone, Time: now(), Value: 0}}); err != nil || e != "" {
+				c.Violate("store:legal-write-refused", fmt.Sprint(err, e), nil)
+				return
+			}
+			if err := client.ImportNodes(tnc, parent2, y, "importer", false); err != nil {
+				c.Violate("import:failed:"+classSig(), "a second ImportNodes of the same export failed: "+err.Error(), wit)
+				return
+			}
+			kids2, err := client.GetNodes(tnc, parent2, "all", "", true)
+			if err != nil || len(kids2) != 1 {
+				c.Violate("import:no-top-node", fmt.Sprintf("second import: %d nodes under the fresh parent (%v)", len(kids2), err), wit)
+				return
+			}
+			wit["second_import"] = true
+			if !verifyCopy(kids2[0].ID, parent2) {
+				return
+			}
+			c.Count("second_imports_compared", 1)
 		}
 		c.Distinct(fmt.Sprintf("%s preserve=%v focused=%v %s mirrors=%d deleted=%d", targetKind, preserve, focused, classSig(), mirrors, len(deleted)))
 		if i < 2 {
